@@ -311,7 +311,7 @@ impl Iterator for ZProbe {
     }
 }
 
-/// Borrowing probe: the i-th `S` entry yields a reference to `backing[i]`.
+/// Borrowing probe: the i-th `S` entry yields a reference to `backing[len - 1 - i]` (the referents are stored in reverse order).
 pub struct RefProbe<'a, T> {
     pub core: ProbeCore,
     pub backing: &'a [T],
@@ -322,7 +322,7 @@ impl<'a, T> Iterator for RefProbe<'a, T> {
 
     fn next(&mut self) -> Option<&'a T> {
         let backing = self.backing;
-        self.core.step().map(|(_, i)| &backing[i])
+        self.core.step().map(|(_, i)| &backing[backing.len() - 1 - i])
     }
 
     fn size_hint(&self) -> (usize, Option<usize>) {
